@@ -122,6 +122,62 @@ pub fn exec_proj<S: Sc + BaseFloat>(op: &str, fm: &str, a: &[Val<S>]) -> Option<
                      I(ceil_i((dv[0].abs() + dv[1].abs()) / (dn * eps))), I(if dv[2] > 0.0 { 1 } else { -1 }),
                      I(ceil_i(uv[0].abs() / (un * eps))), I(if uv[1] >= -eps * un { 1 } else { -1 }), I(eye_dev)])
         }
+        // C15 close to (anti)parallel.  a is a unit vector, n a unit vector perpendicular to it (both exact rationals);
+        // b = +-cos(d) a + sin(d) (n x a) is built natively, at angle d (or pi - d) from a, for d from a table well above the
+        // tolerated 1e-7 rad (1e-4 rad for from_arc).  The recorder measures |r(a) - b| in millionths of d, the deviation of
+        // the result from a unit quaternion / orthonormal basis in machine epsilons, and (quaternions) how far the rotation
+        // axis is from perpendicular to a, in 1e-9.
+        ("arc_proj", [T(kind), V3(a), V3(n), I(dc), B(anti), N(s1), N(s2)]) => {
+            let table: &[f64] = if kind.starts_with("arc") { &[1.0e-2, 1.0e-3, 2.0e-4] } else { &[1.0e-3, 1.0e-4, 1.0e-5, 1.0e-6] };
+            let d = table[(*dc as usize) % table.len()];
+            let ds: S = NumCast::from(d).unwrap();
+            let m = n.cross(*a);
+            let b = (if *anti { -*a } else { *a }) * ds.cos() + m * ds.sin();
+            let b = b / b.magnitude();
+            let (au, bu) = ([f(a.x), f(a.y), f(a.z)], [f(b.x), f(b.y), f(b.z)]);
+            let (ra, unit_dev, axis_dev): (Vector3<S>, i64, i64) = match kind.as_str() {
+                "quat" | "arc" => {
+                    let q = if kind == "quat" { <Quaternion<S> as Rotation>::between_vectors(*a, b) } else { Quaternion::from_arc(*a * *s1, b * *s2, None) };
+                    let qq = qv(&q);
+                    let vn = (qq[1] * qq[1] + qq[2] * qq[2] + qq[3] * qq[3]).sqrt().max(1.0e-300);
+                    let ax = ((qq[1] * au[0] + qq[2] * au[1] + qq[3] * au[2]) / vn).abs();
+                    (q.rotate_vector(*a), ceil_i((norm4(&qq) - 1.0).abs() / eps), ceil_i(ax / 1.0e-9))
+                }
+                "basis3" => {
+                    let r = <Basis3<S> as Rotation>::between_vectors(*a, b);
+                    let mm = basis3_mat(&r);
+                    let cols = [[f(mm.x.x), f(mm.x.y), f(mm.x.z)], [f(mm.y.x), f(mm.y.y), f(mm.y.z)], [f(mm.z.x), f(mm.z.y), f(mm.z.z)]];
+                    let mut ortho = 0.0f64;
+                    for i in 0..3 { for j in 0..3 {
+                        let e: f64 = (0..3).map(|k| cols[i][k] * cols[j][k]).sum::<f64>() - if i == j { 1.0 } else { 0.0 };
+                        ortho = ortho.max(e.abs());
+                    } }
+                    (r.rotate_vector(*a), ceil_i(ortho / eps), 0)
+                }
+                _ => return None,
+            };
+            let err = ((f(ra.x) - bu[0]).powi(2) + (f(ra.y) - bu[1]).powi(2) + (f(ra.z) - bu[2]).powi(2)).sqrt();
+            Tup(vec![I(ceil_i(err / d * 1.0e6)), I(unit_dev), I(axis_dev)])
+        }
+        ("arc_proj", [T(kind), V2(a), I(dc), B(anti), B(cw)]) if kind == "basis2" => {
+            let table: &[f64] = &[1.0e-3, 1.0e-4, 1.0e-5, 1.0e-6];
+            let d = table[(*dc as usize) % table.len()];
+            let ds: S = NumCast::from(d).unwrap();
+            let m = if *cw { Vector2::new(a.y, -a.x) } else { Vector2::new(-a.y, a.x) };
+            let b = (if *anti { -*a } else { *a }) * ds.cos() + m * ds.sin();
+            let b = b / b.magnitude();
+            let r = <Basis2<S> as Rotation>::between_vectors(*a, b);
+            let ra = r.rotate_vector(*a);
+            let mm = basis2_mat(&r);
+            let cols = [[f(mm.x.x), f(mm.x.y)], [f(mm.y.x), f(mm.y.y)]];
+            let mut ortho = 0.0f64;
+            for i in 0..2 { for j in 0..2 {
+                let e: f64 = (0..2).map(|k| cols[i][k] * cols[j][k]).sum::<f64>() - if i == j { 1.0 } else { 0.0 };
+                ortho = ortho.max(e.abs());
+            } }
+            let err = ((f(ra.x) - f(b.x)).powi(2) + (f(ra.y) - f(b.y)).powi(2)).sqrt();
+            Tup(vec![I(ceil_i(err / d * 1.0e6)), I(ceil_i(ortho / eps)), I(0)])
+        }
         // Deg -> Rad -> Deg (or the reverse) relative error in units of the scalar's epsilon
         ("unit_roundtrip", [T(unit), N(x)]) => {
             let back: S = if unit == "Deg" { let r: Rad<S> = Deg(*x).into(); let d: Deg<S> = r.into(); d.0 } else { let d: Deg<S> = Rad(*x).into(); let r: Rad<S> = d.into(); r.0 };
